@@ -338,6 +338,12 @@ def run(ctx):
             "stir::GeneralisedObjectiveFunction::set_prior_sptr": "the prior carries its own _already_set_up flag: every prior computation starts with check(), which calls error() when the new prior was not set up (GeneralisedPrior::check)",
         },
     )
+    # e: sums over subsets are element-wise: every loop that walks several image iterators together (total sensitivity = sum of
+    # subset sensitivities, full gradient = sum of subset gradients, ...) advances each iterator exactly once per iteration
+    from engine.loops import lockstep_sweep
+
+    lockstep_sweep(ctx, "C05.e-elementwise-sums", allf)
+    ctx.require_count("C05.e-elementwise-sums", 5)
     nd = rule_d_accumulators_start_from_zero(ctx, allf)
     dc = [f for f in units[3].functions if f.qn == "stir::distributable_computation" and f.body is not None and f.cfg_raw]
     if not dc:
